@@ -1,10 +1,11 @@
 /- Helper lemmas for C16, part 5: what the specification's writer writes is read back exactly. -/
 import Chrono.Proofs.TzRoundL
+import Chrono.Proofs.TzGrammarL
 import Chrono.Proofs.TzTruncL
 import Chrono.Proofs.TzSamples
 
 namespace Chrono.Proofs.Tz
-open Chrono Chrono.M.Tz Chrono.Spec.Tz Chrono.Extracted.TzP
+open Chrono Chrono.M.Tz Chrono.Spec.Tz Chrono.Spec.Tz.Gr Chrono.Extracted.TzP
 
 /-! ### big-endian integers -/
 theorem beBytes_len (n : Nat) (x : Int) : (beBytes n x).length = n := by
@@ -558,13 +559,86 @@ theorem trimWs_framed (F : List Nat) (hne : F ≠ []) (h : ∀ b ∈ F, Pr b) :
 theorem parseFooter_empty (v : Version) : parseFooter [10, 10] v = .ok none := by
   cases v <;> decide
 
-theorem parseFooter_rule (v : Version) (r : Rule) (h : RuleOk (v == .V3) r) :
-    parseFooter (10 :: (renderTz r ++ [10])) v = .ok (some r) := by
-  have hpr := pr_renderTz r _ h
-  obtain ⟨b0, t0, e0, hb0⟩ := renderTz_head r _ h
-  have hne : renderTz r ≠ [] := by rw [e0]; simp
+/-! #### every string of the TZ grammar is printable, non-blank ASCII starting with `<` or a letter -/
+theorem pr_one (a : Nat) (h : 33 ≤ a ∧ a ≤ 126) : ∀ b ∈ [a], Pr b := pr_cons h pr_nil
+
+theorem pr_num {s : List Nat} {n : Nat} (p : Num s n) : ∀ b ∈ s, Pr b := by
+  intro b hb
+  have := isDigit_bounds ((num_spec p).2.1 b hb)
+  unfold Pr; omega
+
+theorem pr_hms {s : List Nat} {h m sec : Nat} (p : Hms s h m sec) : ∀ b ∈ s, Pr b := by
+  have c58 : Pr 58 := by unfold Pr; omega
+  cases p with
+  | h ph => exact pr_num ph
+  | hm ph pm => exact pr_append (pr_num ph) (pr_cons c58 (pr_num pm))
+  | hms ph pm ps => exact pr_append (pr_num ph) (pr_cons c58 (pr_append (pr_num pm) (pr_cons c58 (pr_num ps))))
+
+theorem pr_sign {s : List Nat} {sg : Int} (p : Sign s sg) : ∀ b ∈ s, Pr b := by
+  cases p with
+  | none => exact pr_nil
+  | plus => exact pr_one 43 (by omega)
+  | minus => exact pr_one 45 (by omega)
+
+theorem pr_offset {s : List Nat} {o : Int} (p : Offset s o) : ∀ b ∈ s, Pr b := by
+  cases p with
+  | mk psg pb _ _ _ => exact pr_append (pr_sign psg) (pr_hms pb)
+
+theorem pr_time {ext : Bool} {s : List Nat} {t : Int} (p : Time ext s t) : ∀ b ∈ s, Pr b := by
+  cases p with
+  | posix pb _ _ _ => exact pr_hms pb
+  | ext psg pb _ _ _ => exact pr_append (pr_sign psg) (pr_hms pb)
+
+theorem pr_name {s n : List Nat} (p : Name s n) : ∀ b ∈ s, Pr b := by
+  have hc := (name_nameOk p).2.2
+  rw [List.all_eq_true] at hc
+  have hall : ∀ b ∈ n, Pr b := fun b hb => nameChar_pr (hc b hb)
+  cases p with
+  | bare _ _ _ => exact hall
+  | quoted _ _ _ => exact pr_cons (by unfold Pr; omega) (pr_append hall (pr_one 62 (by omega)))
+
+theorem pr_day {s : List Nat} {d : RuleDay} (p : Day s d) : ∀ b ∈ s, Pr b := by
+  have c46 : Pr 46 := by unfold Pr; omega
+  cases p with
+  | j1 p _ _ => exact pr_cons (by unfold Pr; omega) (pr_num p)
+  | j0 p _ => exact pr_num p
+  | mwd pm pw pd _ _ _ _ _ =>
+    exact pr_cons (by unfold Pr; omega)
+      (pr_append (pr_num pm) (pr_cons c46 (pr_append (pr_num pw) (pr_cons c46 (pr_num pd)))))
+
+theorem pr_daytime {ext : Bool} {s : List Nat} {d : RuleDay} {t : Int} (p : DayTime ext s d t) :
+    ∀ b ∈ s, Pr b := by
+  cases p with
+  | default pd => exact pr_day pd
+  | timed pd pt => exact pr_append (pr_day pd) (pr_cons (by unfold Pr; omega) (pr_time pt))
+
+theorem pr_dstOffset {so : Int} {s : List Nat} {o : Int} (p : DstOffset so s o) : ∀ b ∈ s, Pr b := by
+  cases p with
+  | default => exact pr_nil
+  | given p => exact pr_offset p
+
+theorem pr_denotes {ext : Bool} {s : List Nat} {r : Rule} (h : Denotes ext s r) : ∀ b ∈ s, Pr b := by
+  have c44 : Pr 44 := by unfold Pr; omega
+  cases h with
+  | fixed pn po => exact pr_append (pr_name pn) (pr_offset po)
+  | alt pn1 po1 pn2 po2 pd1 pd2 =>
+    exact pr_append (pr_name pn1) (pr_append (pr_offset po1) (pr_append (pr_name pn2)
+      (pr_append (pr_dstOffset po2) (pr_cons c44 (pr_append (pr_daytime pd1) (pr_cons c44 (pr_daytime pd2)))))))
+
+theorem denotes_head {ext : Bool} {s : List Nat} {r : Rule} (h : Denotes ext s r) :
+    ∃ b t, s = b :: t ∧ (b = 60 ∨ isAlpha b = true) := by
+  cases h with
+  | fixed pn po => exact name_head pn _
+  | alt pn1 _ _ _ _ _ => exact name_head pn1 _
+
+/-- a footer holding any string of the TZ grammar is read as the rule the string denotes -/
+theorem parseFooter_rule (v : Version) (F : List Nat) (r : Rule) (h : Denotes (v == .V3) F r) :
+    parseFooter (10 :: (F ++ [10])) v = .ok (some r) := by
+  have hpr := pr_denotes h
+  obtain ⟨b0, t0, e0, hb0⟩ := denotes_head h
+  have hne : F ≠ [] := by rw [e0]; simp
   unfold parseFooter
-  have hu : validUtf8 (10 :: (renderTz r ++ [10])) = true := by
+  have hu : validUtf8 (10 :: (F ++ [10])) = true := by
     apply validUtf8_ascii
     intro b hb
     simp only [List.mem_cons, List.mem_append, List.mem_nil_iff, or_false] at hb
@@ -574,12 +648,12 @@ theorem parseFooter_rule (v : Version) (r : Rule) (h : RuleOk (v == .V3) r) :
     · omega
   rw [hu]
   simp only [Bool.not_true, Bool.false_eq_true, if_false]
-  have hl : (10 :: (renderTz r ++ [10])).getLast? = some 10 := by
+  have hl : (10 :: (F ++ [10])).getLast? = some 10 := by
     rw [← List.cons_append]
     exact List.getLast?_concat
   rw [if_neg (by simp [hl])]
   rw [trimWs_framed _ hne hpr]
-  have h58 : ¬ ((renderTz r).head? == some 58 || (renderTz r).contains 0) = true := by
+  have h58 : ¬ (F.head? == some 58 || F.contains 0) = true := by
     simp only [Bool.or_eq_true, beq_iff_eq, List.contains_iff_mem, not_or]
     refine ⟨?_, ?_⟩
     · rw [e0]
@@ -591,9 +665,9 @@ theorem parseFooter_rule (v : Version) (r : Rule) (h : RuleOk (v == .V3) r) :
       have := hpr 0 h0
       unfold Pr at this; omega
   rw [if_neg h58]
-  have hemp : (renderTz r).isEmpty = false := by rw [e0]; rfl
+  have hemp : F.isEmpty = false := by rw [e0]; rfl
   rw [if_neg (by rw [hemp]; simp)]
-  rw [tz_roundtrip' r _ h]
+  rw [tz_accepts_all' _ F r h]
   rfl
 
 /-! ### the whole file -/
@@ -604,10 +678,11 @@ structure BlockVals (v : Version) (ts : Nat) (b : Block) : Prop where
   leaps : ∀ l ∈ b.leaps, TimeFits v ts l.1 ∧ I32r l.2
   ind : badIndicators b.types.length b.stdWalls b.utLocals = false
 
-/-- the footer a writer may put after the 64-bit block: nothing, or the canonical text of a
-well-formed rule (with the extensions only in a version-3 file) -/
+/-- the footer a writer may put after the 64-bit block: nothing, or ANY string of the POSIX TZ
+grammar (`Spec.Tz.Denotes`: optional DST offset, optional `/time`, any zero padding, optional `+`;
+the RFC 8536 extensions only in a version-3 file), `rule` being what the string denotes -/
 def FooterOk (v : Version) (footer : List Nat) (rule : Option Rule) : Prop :=
-  (footer = [] ∧ rule = none) ∨ ∃ r, rule = some r ∧ footer = renderTz r ∧ RuleOk (v == .V3) r
+  (footer = [] ∧ rule = none) ∨ ∃ r, rule = some r ∧ Denotes (v == .V3) footer r
 
 theorem parseRest_enc (v : Version) (ts : Nat) (b : Block) (fo : Option (List Nat)) (rule : Option Rule)
     (hs : BlockShape b) (hv : BlockVals v ts b) (hts : ts = 4 ∨ ts = 8)
@@ -681,9 +756,9 @@ theorem tzif_roundtrip_v2' (f : TzFile) (hver : f.version ≠ .V1) (hs1 : BlockS
   rw [parse_of_blocks (parseBlocks_enc_v2 f hver hs1 hs2)]
   refine parseRest_enc f.version 8 f.v2 _ rule hs2 hv (Or.inr rfl) ?_ hval
   show parseFooter _ _ = _
-  rcases hfoot with ⟨h1, h2⟩ | ⟨r, h1, h2, h3⟩
+  rcases hfoot with ⟨h1, h2⟩ | ⟨r, h1, h2⟩
   · rw [h1, h2]; exact parseFooter_empty _
-  · rw [h1, h2]; exact parseFooter_rule _ r h3
+  · rw [h1]; exact parseFooter_rule _ _ r h2
 
 theorem footerOf_enc_v1 (f : TzFile) (hver : f.version = .V1) (hs : BlockShape f.v1) :
     footerOf (encodeTzif f) = [] := by
